@@ -18,13 +18,13 @@ U64 = (1 << 64) - 1
 U32 = (1 << 32) - 1
 ST = {"sys": 7, "thr": 3, "mod": 4, "mem": 5, "m64": 9, "exc": 6, "tnm": 24, "unl": 14, "mi": 16, "misc": 15,
       "bp": 0x47670001, "asr": 0x47670002, "ti": 17, "lxcpu": 0x47670003, "lxstatus": 0x47670004, "lxlsb": 0x47670005,
-      "lxenv": 0x47670007, "lxmaps": 0x47670009, "lxlim": 0x4d7a0003}
+      "lxenv": 0x47670007, "lxmaps": 0x47670009, "lxlim": 0x4d7a0003, "hnd": 12}
 CV_PDB70, CV_PDB20, CV_ELF = 0x53445352, 0x3031424e, 0x4270454c
 VS_SIG, VS_VER = 0xfeef04bd, 0x00010000
 MISC_NINTS = {1: 6, 2: 11, 3: 15 + (1 + 32 + 8 + 1 + 32 + 8 + 1), 4: 15 + 83 + 300, 5: 15 + 83 + 300 + 3 + 128 + 1}
 MISC_SIGNED = {3: {15, 15 + 41, 15 + 82}}
 SECTIONS = ["hdr", "sys", "thr", "mod", "mem", "memq", "m64", "m64q", "exc", "tnm", "unl", "mi", "misc",
-            "bp", "asr", "ti", "lxcpu", "lxstatus", "lxlsb", "lxenv", "lxmaps", "lxlim"]
+            "bp", "asr", "ti", "lxcpu", "lxstatus", "lxlsb", "lxenv", "lxmaps", "lxlim", "hnd"]
 RAW_KEYS = ["lxcpu", "lxstatus", "lxlsb", "lxenv", "lxmaps", "lxlim"]
 KV_SEP = {"lxcpu": b":", "lxstatus": b":", "lxlsb": b"=", "lxenv": b"="}
 
@@ -108,6 +108,11 @@ def model_tokens(m):
     opt("ti", lst(lambda x: t.extend(x)))
     for k in RAW_KEYS:
         opt(k, lambda x: t.extend(x.toks()))
+
+    def ostr(o):
+        return [-1] if o is None else str_toks(o)
+
+    opt("hnd", lambda x: (t.append(x[0]), lst(lambda h: t.extend([h["h"]] + ostr(h["type"]) + ostr(h["obj"]) + h["ints"]))(x[1])))
     return t
 
 
@@ -200,6 +205,12 @@ def parse_model(toks):
     m["ti"] = opt(lst(lambda: r.ints(10)))
     for k in RAW_KEYS:
         m[k] = opt(r.blob)
+
+    def ostr():
+        n = r.int()
+        return None if n == -1 else r.ints(n)
+
+    m["hnd"] = opt(lambda: (r.int(), lst(lambda: {"h": r.int(), "type": ostr(), "obj": ostr(), "ints": r.ints(4)})()))
     return m
 
 
@@ -527,6 +538,11 @@ def expected(m):
     E["ti"] = sec("ti", lambda l: True, lambda l: [list(x) for x in l])
     for k in RAW_KEYS:
         E[k] = sec(k, lambda b: True, (lambda kk: lambda b: [[len(b.b)] + list(b.b)] + (kv_expect(b.b, KV_SEP[kk]) if kk in KV_SEP else []))(k))
+    def onm(o):
+        return [-1] if o is None else [len(o)] + list(o)
+
+    E["hnd"] = sec("hnd", lambda x: all(valid_utf16(h["type"] or []) and valid_utf16(h["obj"] or []) for h in x[1]),
+                   lambda x: [[2 if x[0] else 1, h["h"]] + h["ints"] + onm(h["type"]) + onm(h["obj"]) for h in x[1]])
     return E
 
 
@@ -559,7 +575,7 @@ def sys_wf(s):
 
 def parse_answer(a):
     """-> list of (status, [items]) or None"""
-    if a in ("READFAIL", ""):
+    if a in ("READFAIL", "") or a.startswith("P;;"):
         return None
     out = []
     for s in a.split(";"):
@@ -631,6 +647,11 @@ def synth_ok(m):
         return False
     if m.get("sys") is not None and (m["sys"]["csd"] is None or not valid_utf16(m["sys"]["csd"])):
         return False
+    if m.get("hnd") is not None and (m["hnd"][0] != 0 or not m["hnd"][1] or
+                                     any(not valid_utf16(h["type"] or []) or not valid_utf16(h["obj"] or []) for h in m["hnd"][1])):
+        return False
+    if m.get("ti") is not None and not m["ti"]:
+        pass
     return True
 
 
@@ -919,6 +940,13 @@ class Gen:
         for k in RAW_KEYS:
             if r.chance(1, 4):
                 m[k] = self.text(KV_SEP.get(k, b":"))
+        if r.chance(1, 3):
+            def oname():
+                if r.chance(1, 3):
+                    return None
+                return units()
+            m["hnd"] = (r.below(2), [{"h": self.u(64), "type": oname(), "obj": oname(), "ints": [self.u(32) for _ in range(4)]}
+                                     for _ in range(self.count())])
         return m
 
     def text(self, sep):
@@ -1025,7 +1053,7 @@ class C02(PropBase):
         "correspondence run on identical bytes and by the synth cross-check; C08 range-table model for memory_at_address",
         "extraction: ExtrOcamlBasic only; ocaml/zconv.ml + ocaml/c02/main.ml; harness/src/bin/c02.rs",
     ]
-    assumptions = ["handle data and Crashpad info streams are not in the dump model (their structs are translated and pinned); MozSoftErrors, "
+    assumptions = ["Crashpad info and handle object-information chains are not in the dump model (their structs are translated and pinned); MozSoftErrors, "
                    "LinuxCmdLine/Auxv/DsoDebug and the Mac streams are not modelled",
                    "Linux text streams are byte-exact raw streams in the theorem; the key/value syntax of cpuinfo/status/lsb-release/environ is compared "
                    "against a Coq model of linux_list_iter in the correspondence run, maps/limits line syntax belongs to other properties",
@@ -1033,15 +1061,15 @@ class C02(PropBase):
     manifest = {
         "text": "Theorems (Coq, all values in range, both byte orders, any number of items): the generic layout codec round-trips every struct layout "
                 "regenerated from format.rs (all 74 parseable structs, pinned against the documented layouts); list framing (count header, 0-or-4 padding), "
-                "UTF-16 strings, CodeView records and the whole dump of 19 streams (header, directory with arbitrary leading duplicates, system info, threads, "
+                "UTF-16 strings, CodeView records and the whole dump of 20 streams (header, directory with arbitrary leading duplicates, system info, threads, "
                 "modules, MemoryList/Memory64List, exception, thread names, unloaded modules, memory info, misc info, Breakpad info, assertion info, thread "
-                "info list, six Linux text streams as raw bytes) decode to exactly the encoded model; little- and big-endian encodings decode to the same model; "
+                "info list, handle data, six Linux text streams as raw bytes) decode to exactly the encoded model; little- and big-endian encodings decode to the same model; "
                 "the last directory entry of a type is served; every address of an isolated region reads back its byte (C08); CPU contexts of nine "
                 "architectures read back their registers iff context_flags match; debug/code identifiers are the documented functions of the CodeView record. "
                 "The model is tied to the code by reading the same Coq-serialized bytes with the real Minidump::read/get_stream and with the extracted decoder, "
                 "by a cross-check against minidump-synth, and by an independent Python oracle.",
         "note": "Trusted: Coq kernel; layout translator; hand-written reader model (correspondence-checked, not verified against the Rust source); "
-                "extraction + OCaml/Rust glue. Handle data and Crashpad streams are outside the dump model; Linux text content is correspondence-only.",
+                "extraction + OCaml/Rust glue. Crashpad info is outside the dump model; Linux text content is correspondence-only.",
     }
 
     # ---- stage 1: models -> bytes through the extracted serializer
